@@ -52,6 +52,9 @@ def jobs(tier, seed):
     for a, b in extra:
         ints = ["n1"] if "n1" in str(a) else []
         js.append({"mode": "reprpair", "a": a, "b": b, "int_inputs": ints, "tag": "symbolic-content"})
+    for j in c12.jobs(tier, seed):
+        if j.get("mode") == "ldroutes":
+            js.append({"mode": "ldroutes", "d": j["d"], "roundtrip": True})
     js.append({"mode": "reprpair", "a": ["expr", ["Sine", X]], "b": ["expr", ["Cosine", X]], "twin": "claim-same-text"})
     for i, j in enumerate(js):
         j["id"] = f"{PROP}-{i}"
@@ -81,6 +84,8 @@ def true_vc(name, outs, idx, concrete_too=True):
 
 def vcs(spec, ctx, outs):
     res = []
+    if spec["mode"] == "ldroutes":
+        return c12.vcs(spec, ctx, outs)
     if outs and outs[0].get("kind") == "skip":
         return []
     ra, rb, sa, sb, eq = outs[0], outs[1], outs[2], outs[3], outs[4]
